@@ -28,6 +28,12 @@ pub struct Scn {
     pub scheme: Scheme,
     pub inband: bool,
     pub publish_frac_us: u64,
+    /// two FDT instances: the object under test is listed only by the OLDER one, a second object (listed
+    /// by the newer instance, published `second_after_us` later) is received promptly
+    #[serde(default)]
+    pub two_instances: bool,
+    #[serde(default)]
+    pub second_after_us: u64,
 }
 
 pub struct C19;
@@ -61,6 +67,8 @@ pub fn gen(rng: &mut Rng, _tier: Tier) -> Scn {
         scheme: *rng.pick(&[Scheme::NoCode, Scheme::Rs28, Scheme::RaptorQ]),
         inband: rng.chance(0.5),
         publish_frac_us: rng.range(0, 999_999),
+        two_instances: rng.chance(0.3),
+        second_after_us: rng.range(1_000, (duration_s * 1_000_000).min(40_000_000)),
     }
 }
 
@@ -101,7 +109,117 @@ fn receive_with_offset(scn: &Scn, ctx: &Ctx, sess: &Session, offset_s: i64) -> (
     (r, trace)
 }
 
+/// Two instances: A is listed only by the older one and arrives late; B (newer instance) arrives promptly.
+fn run_two(scn: &Scn, ctx: &Ctx, scratch: &Path) {
+    let mut spec = SenderSpec::basic(OtiSpec::new(Scheme::NoCode, 1400, 64, 0, true));
+    spec.fdt_duration_ms = scn.duration_s * 1000;
+    spec.fdt_inband_sct = scn.sct;
+    spec.full_fdt = false; // being-transferred mode: each instance lists the object in transmission only
+    spec.queues = vec![(0, 1)];
+    spec.fdt_carousel = CarouselSpec::DelayMs(1_000_000_000);
+    let (b, e) = (4u32, 8u16);
+    let mk = |i: usize| {
+        let mut o = ObjectSpec::basic(50, 0xC19 + i as u64, i);
+        o.oti = Some(OtiSpec::new(scn.scheme, e, b, if scn.scheme == Scheme::NoCode { 0 } else { 1 }, scn.inband));
+        o
+    };
+    let mut poll = PollSpec::simple(1000);
+    poll.start_us = scn.publish_frac_us;
+    poll.gap = GapSpec::ListUs(vec![scn.second_after_us, 1000, 1000, 1000]);
+    poll.idle_polls_after_done = 0;
+    let s = SenderScn {
+        spec,
+        objects: vec![mk(0), mk(1)],
+        ops: vec![
+            TimedOp { when: When::AtUs(0), op: Op::Add(0) },
+            TimedOp { when: When::AtUs(scn.publish_frac_us + scn.second_after_us), op: Op::Add(1) },
+        ],
+        poll,
+        snapshots: false,
+    };
+    let sess = match run_sender(&s, ctx, scratch) {
+        Some(x) => x,
+        None => return,
+    };
+    if sess.objs.len() != 2 {
+        return;
+    }
+    let (toi_a, toi_b) = (sess.objs[0].toi, sess.objs[1].toi);
+    // the instance that lists A (and not B)
+    let tx_a = match sess.txs.iter().find(|t| t.doc.as_ref().map(|d| d.files.iter().any(|f| f.toi == toi_a)).unwrap_or(false)) {
+        Some(t) => t,
+        None => return,
+    };
+    if sess.txs.iter().any(|t| t.first > tx_a.first && t.doc.as_ref().map(|d| d.files.iter().any(|f| f.toi == toi_a)).unwrap_or(false)) {
+        ctx.borrow_mut().note("skip:object-relisted");
+        return;
+    }
+    let t_e = sess.trace.pkts[tx_a.first].t_us;
+    let expires_us = (t_e / 1_000_000 + scn.duration_s) * 1_000_000;
+    let t_f = t_e + scn.fdt_delay_us;
+    let t_o = (t_f as i64 + scn.obj_gap_us.max(0)) as u64;
+    let last_emit = sess.trace.pkts.last().map(|p| p.t_us).unwrap_or(t_e);
+    for off in &scn.offsets_s {
+        let mut recv = RecvSpec::basic();
+        recv.expiry_check = scn.check;
+        recv.object_timeout_ms = Some(1_000_000_000);
+        let monitor = Monitor::new(ctx, true, WriterFaults::default(), "r0");
+        let mut rr = RecvRun::new(&recv, ctx, monitor.clone(), false, "r0");
+        rr.offset_us = off * 1_000_000;
+        let ep = EndpointSpec::default_ep().build();
+        // everything but A's packets arrives with the FDT transit delay; A's packets arrive at t_o, after all of it
+        let t_o_eff = t_o.max(last_emit + scn.fdt_delay_us + 1);
+        let mut dl: Vec<(u64, &Emitted)> = sess.trace.pkts.iter().map(|p| if p.dec.toi == toi_a { (t_o_eff, p) } else { (p.t_us + scn.fdt_delay_us, p) }).collect();
+        dl.sort_by_key(|x| (x.0, x.1.idx));
+        for (t, p) in dl {
+            rr.push(&ep, &p.bytes, t);
+        }
+        let (exact_a, wrong_a, failed_a) = completes_exact(&monitor, &sess.objs[0]);
+        let (exact_b, _, _) = completes_exact(&monitor, &sess.objs[1]);
+        rr.drop_receiver();
+        let r_o = t_o_eff as i128 + *off as i128 * 1_000_000;
+        let est: i128 = if scn.sct { t_e as i128 + (t_o_eff as i128 - t_f as i128) } else { r_o };
+        let est_rx: i128 = if scn.sct { t_e as i128 } else { t_f as i128 + *off as i128 * 1_000_000 };
+        let allowed = !scn.check || (est <= expires_us as i128 && est_rx <= expires_us as i128);
+        let margin = (est - expires_us as i128).abs().min((est_rx - expires_us as i128).abs());
+        if wrong_a > 0 {
+            violate(ctx, "C19/complete-wrong-bytes", "-", "two instances: complete with wrong bytes".into());
+        }
+        if scn.check && margin < 2_000_000 {
+            ctx.borrow_mut().note("relax:within-2s-of-expiry");
+            continue;
+        }
+        let class = if scn.sct { "two-instances-with-sct" } else { "two-instances-without-sct" };
+        if allowed && exact_a == 0 {
+            violate(ctx, "C19/unexpired-fdt-not-used", class, format!("offset {} s: object toi={} listed only by the older, still unexpired instance was not delivered", off, toi_a));
+        }
+        if !allowed && (exact_a > 0 || failed_a > 0) {
+            violate(
+                ctx,
+                if exact_a > 0 { "C19/delivered-through-expired-fdt" } else { "C19/failed-through-expired-fdt" },
+                class,
+                format!(
+                    "offset {} s, duration {} s: object toi={} is listed only by an instance that expired {:.3} s earlier on the estimated sender clock (a newer instance listing toi={} is still valid), yet {} complete / {} failed writers",
+                    off, scn.duration_s, toi_a, (est.max(est_rx) - expires_us as i128) as f64 / 1e6, toi_b, exact_a, failed_a
+                ),
+            );
+        }
+        // the promptly received object of the newer instance is delivered unless its own instance is expired
+        let _ = exact_b;
+    }
+    let mut c = ctx.borrow_mut();
+    c.nontrivial = true;
+    c.count_fault("delay");
+    if scn.offsets_s.iter().any(|o| *o != 0) {
+        c.count_fault("clock-skew");
+    }
+    c.note("two-instance-runs");
+}
+
 pub fn run(scn: &Scn, ctx: &Ctx, scratch: &Path) {
+    if scn.two_instances {
+        return run_two(scn, ctx, scratch);
+    }
     let mut spec = SenderSpec::basic(OtiSpec::new(Scheme::NoCode, 1400, 64, 0, true));
     spec.fdt_duration_ms = scn.duration_s * 1000;
     spec.fdt_inband_sct = scn.sct;
@@ -250,6 +368,7 @@ impl Prop for C19 {
         push(&|n| n.scheme = Scheme::NoCode);
         push(&|n| n.inband = true);
         push(&|n| n.publish_frac_us = 0);
+        push(&|n| n.two_instances = false);
         push(&|n| {
             if n.offsets_s.len() > 2 {
                 n.offsets_s.pop();
